@@ -868,6 +868,14 @@ func (e *env) opOrdinal(t triple) (string, string) {
 	}
 	line := fmt.Sprintf("ordinal %d %d %d", t.id, t.branch, t.idx)
 	o, ok := e.kmc.GetPublicKeyOrdinal(pk)
+	// C06: a later ordinal lookup for a plot key the wallet handed out (or restored from an untampered file) for a keystore
+	// it still manages returns the key's index - in the running instance, not only after a restart
+	if t.branch == 0 && e.mustSign[t] {
+		e.h.Res.OracleEvals++
+		if !ok || o != t.idx {
+			e.fail("C06", "ordinal-lookup-wrong", "GetPublicKeyOrdinal for the external key %d of keystore %d returns (%d, found=%v)", t.idx, t.id, o, ok)
+		}
+	}
 	if !ok {
 		return line, "ordinal none"
 	}
